@@ -56,3 +56,41 @@ func (r *Rand) BoundaryInt() int {
 		return r.Intn(100000)
 	}
 }
+
+// F64Bits: float64 bit patterns by class — every exponent with boundary mantissas, integers near
+// powers of two and ten, fractions just below/above integers, NaN, ±Inf, ±0, subnormals.
+func (r *Rand) F64Bits() uint64 {
+	sign := uint64(r.Intn(2)) << 63
+	switch r.Intn(8) {
+	case 0:
+		ex := uint64(r.Intn(2048))
+		var frac uint64
+		switch r.Intn(4) {
+		case 0:
+			frac = 0
+		case 1:
+			frac = 1
+		case 2:
+			frac = (1 << 52) - 1
+		default:
+			frac = r.U64() & ((1 << 52) - 1)
+		}
+		return sign | ex<<52 | frac
+	case 1: // integers around 2^k
+		k := uint(r.Intn(70))
+		v := float64frombig(k, r.Intn(5)-2)
+		return sign | v
+	case 2: // small integers and halves
+		return sign | f64bits(float64(r.Intn(70000))+[]float64{0, 0.5, 0.25, 0.999999}[r.Intn(4)])
+	case 3: // around int32 / uint32 boundaries
+		b := []float64{2147483647, 2147483648, 2147483649, 4294967295, 4294967296, 4294967297, 9007199254740991, 9007199254740992, 1e21, 1e22}[r.Intn(10)]
+		return sign | f64bits(b+[]float64{0, 0.5, -0.5, 1, -1}[r.Intn(5)])
+	case 4:
+		return []uint64{0x7ff8000000000000, 0x7ff0000000000000, 0xfff0000000000000, 0, 0x8000000000000000, 1, 0x000fffffffffffff, 0x0010000000000000, 0x7fefffffffffffff}[r.Intn(9)]
+	case 5: // exponents around 2^31..2^64 with random mantissa
+		ex := uint64(1023 + 28 + r.Intn(40))
+		return sign | ex<<52 | (r.U64() & ((1 << 52) - 1))
+	default:
+		return r.U64()
+	}
+}
